@@ -52,9 +52,17 @@ CLAIMED.update({
          "Every explored schedule ends with the oracle: all returned (number, serial) pairs pairwise distinct, every identifier carries the creation set before the threads started, all reference word-vectors and words pairwise distinct. The 2x1 configurations are enumerated exhaustively by shuttle's DFS scheduler (reported per configuration with exhausted=true/false); larger ones are sampled by seeded random and PCT schedulers; failing schedules are persisted and replayed with shuttle::replay_from_file. Sampling plus small exhaustive enumerations, not proof.",
          "Trusted: shuttle (treats all atomic orderings as SeqCst: weak-memory effects are not explored), the shadow manifests build the same sources as /repo.",
          "DESIGN.md section 3, C16"),
+ "C06": ("deterministic simulation: a connected real Connection receives from a conforming sender model that emits every control kind in every wire form (pass-through, distribution header with an OTP-style atom cache, fragmented), ticks and junk frames over a segmented, delayed simulated stream; reference = the sender's log",
+         "Seeded search over (item sequences: control kinds x payloads x wire forms, ticks, eight kinds of junk frame, network behaviour). Oracle: the results of successive receive_message calls equal the sender's expectation list call by call: one Ok with equal control and payload per complete valid message, one Err per junk frame, nothing for ticks and non-final fragments; no panic. Fragmented messages are sent as the protocol prescribes and their non-delivery is the recorded known finding; any other discrepancy fails. Sampling, not proof.",
+         "Trusted: the sender model and independent encoder (written from the protocol documents); junk frames avoid the cache slots and sequence ids the model uses.",
+         "DESIGN.md section 3, C06"),
+ "C14": ("deterministic simulation of connection histories: a sender model with an Erlang-conformant atom cache (8 segments x 256 slots, header position independent of slot, create / re-use / overwrite across 1..30 messages, long atoms, both parities) drives a real connected Connection; the library's own header-mode frames are read by an independent header reader and echoed back",
+         "History half of C14 (the single-message half is a pure function and is exercised only as a by-product). Oracle: every message of the history is returned with control and payload equal to what the sender meant; every frame the library emits in header mode is read by the independent reader as the same terms, messages with more than 255 distinct atoms are refused, and the same Connection decodes its own echoed encoding identically. Sampling, not proof.",
+         "Trusted: the simulator's header writer/reader (written from the protocol documents); any slot assignment by the sender conforms.",
+         "DESIGN.md section 3, C14"),
 })
 
-PENDING = {k: 'check under construction in this session (simulation applies; see DESIGN.md); not claimed yet' for k in ['C06','C14']}
+PENDING = {k: 'check under construction in this session (simulation applies; see DESIGN.md); not claimed yet' for k in []}
 
 def main():
     hooks = subprocess.run(["git","-C","/repo","log","--format=%H %s","--grep=^verif hook"],capture_output=True,text=True).stdout.strip().splitlines()
